@@ -477,7 +477,7 @@ _gen_render = ("mode render: 1-5 objects, all shapes, containers, styles, explic
                "control characters and the marker ZQXJ inside attribute-breaking and element-injecting payloads; dagre; per diagram 2 exports (a random catalog theme and one of the special-rule themes 300/301/303) and 3 renders "
                "(pad 100 / random pad + sketch + random theme / centre + scale + dark theme 200|201 + 1-4 random colour overrides); 600 diagrams. "
                "mode render2: boundary style values on shapes and connections, links on connections, 3d/multiple shapes with every outside label position, all special-rule themes, overrides for one colour scheme only; "
-               "mode render3: render2 plus connections with a border radius and labels with special characters on both arrowheads, exported under themes 300-303; 600 diagrams each. ")
+               "mode render3: render2 plus connections with a border radius and labels with special characters on both arrowheads, sql_table and class shapes (columns and fields named like other objects, constraints that carry markup), exported under themes 300-303; 600 diagrams each. ")
 _rn_assume = ["SVG tokenised with Go's strict encoding/xml (HTML entities allowed)", "element/attribute vocabulary = specs/svg_vocab.json, learnt by tools/learn_vocab.sh from the marker-free twin diagrams (modes render-plain, render2-plain, render3-plain) on the unchanged tree"]
 _pp("C25", "pipe_render", "4.11", "Render stage determinism guard: the same input and options compiled, laid out and rendered again from 2 concurrent goroutines (while other diagrams are processed in up to 12 goroutines); TLC checks all SVG digests equal",
     _gen_render + "Non-trivial: every diagram.", "Determinism guard of the whole pipeline in one process.", ["separate processes and the race detector are not part of this check", "each run uses its own text ruler (textmeasure.Ruler is documented as not goroutine-safe)"])
